@@ -785,13 +785,22 @@ def tags(ctx, facts, rule="TAG"):
         okr = r[0] == "call" and r[1].endswith("compute_possibly_empty_hash") and r[2][0][0] == "call" and r[2][0][1].endswith("Iterator::map") and r[2][0][2][0][0] == "call" and r[2][0][2][0][1].endswith("Iterator::map")
         ctx.ob(rule, "hash:every-row", okr, "hash over the per-row values of every item" if okr else "not every item's value enters the hash", site_of(top))
     # reveal_keys
-    rk = next((b for b in facts.tree(base + "reveal_keys") if b.coroutine and flow.find_calls(b, re.compile(r"Iterator::chain$"))), None)
+    rk = next((b for b in facts.tree(base + "reveal_keys") if b.coroutine and flow.find_calls(b, re.compile(r"SeqJoin::parallel_join$"))), None)
     if rk is None:
         ctx.missing(rule, "reveal_keys")
         return
     ctx.count(bodies=2)
     ch = flow.find_calls(rk, re.compile(r"Iterator::chain$"))
     okk = False
+    if not ch:
+        # `let mut keys = parallel_join(..).await?; keys.push(ONE)`: the returned vector is the opened keys, and the only
+        # thing done to it afterwards is one push of ONE
+        ps = [(bb, t) for bb, t in rk.calls() if re.search(r"Vec::<T(, A)?>::push$", F.callee(t)[0] or "")]
+        if len(ps) == 1:
+            v0 = flow.expr_of(rk, ps[0][1]["args"][0], max_depth=30)
+            one = flow.expr_of(rk, ps[0][1]["args"][1], max_depth=6)
+            muts = [t for bb, t in rk.calls() if re.search(r"Vec::<T(, A)?>::(insert|remove|pop|truncate|clear|swap_remove|retain|reverse|sort\w*|drain|dedup\w*|extend\w*|append)$", F.callee(t)[0] or "")]
+            okk = malsec.value_source(v0, r"SeqJoin::parallel_join$") is not None and one[0] == "const" and str(one[1]).endswith("::ONE") and not muts
     if len(ch) == 1:
         a = [flow.expr_of(rk, x, max_depth=30) for x in ch[0][1]["args"]]
         okk = malsec.value_source(a[0], r"SeqJoin::parallel_join$") is not None and a[1][0] == "call" and a[1][1].endswith("iter::once") and a[1][2][0][0] == "const" and str(a[1][2][0][1]).endswith("::ONE")
